@@ -11,10 +11,11 @@
  * Incomplete audits (SshAudit) and policy audits (SshPolicy) are checked from their own machines: see
    c09 / c06, imported here when present.
 """
+import json
 import os
 import random
 
-from harness import common, runner, report
+from harness import common, runner, report, peers
 from checks import rating
 
 OPTS = {'plain': ('text', []), 'batch': ('batch', []), 'verbose': ('verbose', []), 'lwarn': ('text', ['-l', 'warn']),
@@ -74,6 +75,87 @@ def targets_leg(ck, tier):
         else:
             ck.cov['traces_validated_against_impl'] += 1
             ck.nontrivial(('targets', lst, threads, order))
+
+
+def directions_leg(ck):
+    """The two directions of a KEXINIT name different lists (RFC 4253 7.1) whose worst findings differ: the status is the worst finding
+    of the lists the report shows (the server-to-client ones, for servers and clients alike), in text and in JSON."""
+    shapes = [dict(enc=['aes256-ctr'], enc_c2s=['aes256-ctr', '3des-cbc'], mac=['hmac-sha2-256'], mac_c2s=['hmac-sha2-256']),
+              dict(enc=['aes256-ctr', '3des-cbc'], enc_c2s=['aes256-ctr'], mac=['hmac-sha2-256'], mac_c2s=['hmac-sha2-256']),
+              dict(enc=['aes256-ctr'], enc_c2s=['aes256-ctr'], mac=['hmac-sha2-256'], mac_c2s=['hmac-md5', 'hmac-sha2-256']),
+              dict(enc=['aes256-ctr'], enc_c2s=['aes256-ctr'], mac=['hmac-md5'], mac_c2s=['hmac-sha2-256-etm@openssh.com']),
+              dict(enc=['aes256-gcm@openssh.com'], enc_c2s=['arcfour'], mac=['hmac-sha2-256-etm@openssh.com'], mac_c2s=['hmac-sha1'])]
+    cases = []
+    for i, sh in enumerate(shapes):
+        for role in ('server', 'client'):
+            cases.append(rating.mk_case(7000 + 2 * i + (role == 'client'), role=role, kex=['curve25519-sha256', 'kex-strict-s-v00@openssh.com', 'kex-strict-c-v00@openssh.com'],
+                                        key=['ssh-ed25519'], **sh))
+    exp = rating.evaluate(ck, cases)
+    scs, meta = [], []
+    for c in cases:
+        for o in ('plain', 'json', 'lwarn'):
+            view, extra = OPTS[o]
+            scs.append(rating.scenario(c, view, extra=extra))
+            meta.append((c, o))
+    for (c, o), sc, r in zip(meta, scs, runner.run_many(scs)):
+        ck.evaluated()
+        if r.get('harness_error') or r.get('hang'):
+            raise common.Machinery('run failed: %r' % (r.get('harness_error') or 'hang'))
+        want = exp[c['id']]['status']
+        replay = {'case': c, 'option': o, 'argv': sc['argv'], 'expected_status': want, 'exit': r['exit'], 'stdout': r['stdout'][-2500:]}
+        if r['exit'] != want:
+            ck.violation('status-follows-the-other-direction role=%s option=%s' % (c['role'], o), '%s audit, lists differ per direction: exit status %s, the lists the report shows imply %s'
+                         % (c['role'], r['exit'], want), replay)
+            continue
+        if o == 'json':
+            doc = json.loads(r['stdout'])
+            lv = {l for cat in ('kex', 'key', 'enc', 'mac') for a in doc.get(cat, []) for l in ('fail', 'warn') if (a.get('notes') or {}).get(l)}
+            worst = 3 if 'fail' in lv else (2 if 'warn' in lv else 0)
+            if worst != r['exit']:
+                ck.violation('status-vs-json-notes role=%s' % c['role'], 'exit %s but the notes of the JSON report imply %s' % (r['exit'], worst), replay)
+                continue
+        ck.cov['traces_validated_against_impl'] += 1
+        ck.nontrivial(('directions', c['id'], o))
+
+
+def json_targets_leg(ck):
+    """-T with -j: the status of the run is the worst finding in the JSON documents of its targets (the notes each target's entry
+    carries are the ones its status was computed from)."""
+    from checks import multi, c08
+    H = c08.healthy()
+    hk = {'rsa-sha2-512': peers.rsa_blob(1024), 'ssh-ed25519': peers.ed25519_blob()}
+    extra = {
+        # findings that exist only as run-time annotations of the worker's table: a Terrapin warning, a small host key
+        'terrapin-only': peers.ServerCfg(banner=b'SSH-2.0-OpenSSH_9.9', kexinit={'kex': ['sntrup761x25519-sha512@openssh.com'], 'key': ['ssh-ed25519'],
+                                                                                  'enc': ['chacha20-poly1305@openssh.com'], 'mac': ['hmac-sha2-512-etm@openssh.com'], 'comp': ['none']},
+                                         hostkeys={'ssh-ed25519': peers.ed25519_blob()}),
+        'smallkey-only': peers.ServerCfg(banner=b'SSH-2.0-OpenSSH_9.9', kexinit={'kex': ['curve25519-sha256', 'kex-strict-s-v00@openssh.com'], 'key': ['rsa-sha2-512', 'ssh-ed25519'],
+                                                                                  'enc': ['aes256-gcm@openssh.com'], 'mac': ['hmac-sha2-512-etm@openssh.com'], 'comp': ['none']}, hostkeys=hk)}
+    arch = dict(H, **extra)
+    lists = [('terrapin-only',), ('good', 'terrapin-only'), ('smallkey-only', 'good'), ('good', 'good'), ('warn', 'smallkey-only'), ('terrapin-only', 'fail'), ('good', 'warn', 'good')]
+    scs, meta = [], []
+    for lst in lists:
+        for threads in (1, len(lst)):
+            sc, labels = multi.scenario([('server', arch[n]) for n in lst], threads, None, json_out=True)
+            scs.append(sc)
+            meta.append((lst, threads))
+    for (lst, threads), sc, r in zip(meta, scs, runner.run_many(scs)):
+        ck.evaluated()
+        if r.get('harness_error') or r.get('hang'):
+            raise common.Machinery('target-list run failed: %r' % (r.get('harness_error') or 'hang'))
+        replay = {'targets': lst, 'threads': threads, 'argv': sc['argv'], 'exit': r['exit'], 'stdout': r['stdout'][-3000:]}
+        try:
+            doc = json.loads(r['stdout'])
+        except ValueError:
+            ck.violation('target-list-json-unparsable', 'stdout of a -T -j run over healthy targets is not JSON', replay)
+            continue
+        lv = {l for el in doc if isinstance(el, dict) for cat in ('kex', 'key', 'enc', 'mac') for a in el.get(cat, []) for l in ('fail', 'warn') if (a.get('notes') or {}).get(l)}
+        worst = 3 if 'fail' in lv else (2 if 'warn' in lv else 0)
+        if worst != r['exit']:
+            ck.violation('target-list-status-vs-json-notes', 'targets %r, %d thread(s): exit status %s, the notes in the JSON documents imply %s' % (lst, threads, r['exit'], worst), replay)
+        else:
+            ck.cov['traces_validated_against_impl'] += 1
+            ck.nontrivial(('json-targets', lst, threads))
 
 
 def entry_leg(ck, tier, cases, expected, rnd):
@@ -185,6 +267,8 @@ def run(tier):
     if items:
         ck.sample({'trace': rating.trace_of(*items[len(items) // 2])})
     targets_leg(ck, tier)
+    directions_leg(ck)
+    json_targets_leg(ck)
     entry_leg(ck, tier, cases, expected, rnd)
     for modname, fn in (('checks.c09', 'c02_leg'), ('checks.c06', 'c02_leg')):
         try:
